@@ -16,6 +16,10 @@ MUT = {
             "DATA LCDATA1<>+0x008(SB)/8, $0x0000090201080c00", 0,
             [("A3", ("avx2",)), ("A3", ("avx512",)), ("A8", (["A3"],))], ["A3(avx2)", "A3(avx512)"],
             "two bytes of the low-nibble table swapped (shared by both families: A8 stays green, A3 is needed)"),
+    "m01b": ("find_whitespace_and_structurals_amd64.s", "$0x00000902010c0800", "$0x0000090201080c00", "all",
+             [("A3", ("avx2",)), ("A3", ("avx512",)), ("A8", (["A3"],))], ["A3(avx2)", "A3(avx512)"],
+             "same swap in all four replicated lanes of the table (not a single-line edit): both families wrong in the same way, "
+             "A8 stays green - the case DESIGN App. C had in mind for m01"),
     "m02": ("find_quote_mask_and_bits_amd64.s", "DATA LCDATA1<>+0x080(SB)/8, $0xa0a0a0a0a0a0a0a0",
             "DATA LCDATA1<>+0x080(SB)/8, $0xa0a0a0a0a0a0a0a1", 0,
             [("A2", ("avx2",)), ("A2", ("avx512",))], ["A2(avx2)", "A2(avx512)"], "control-character threshold 0x20 -> 0x21 in lane 0"),
@@ -47,7 +51,10 @@ def child(mid):
     tier = os.environ.get("VERIF_TIER", "quick")
     out = {"mutation": mid, "lemmas": {}, "violations": [], "inconclusive": []}
     ctx = LM.SubCtx("SELFTEST", tier, 0)
-    ctx.known = []                      # known findings are not excluded in the self-test
+    # the unchanged tree already violates S1/S3 through defect F3 (digittoval[0x00..0x2f] = 0); in the self-test that class is
+    # treated as a known finding so that a mutant is "killed" only by a *different* counterexample
+    ctx.known = [{"id": "F3", "status": "finding", "property": "SELFTEST", "exclusion": "u_hex_digit_below_0x30",
+                  "what": "digittoval[0x00..0x2f]=0: non-hex \\u digit below '0' accepted"}]
     for fn, args in lemmas:
         try:
             getattr(LM, fn)(ctx, *args)
@@ -76,16 +83,22 @@ def run_mutation(mid, tier):
         subprocess.run(["rsync", "-a", "--exclude", ".git", os.environ.get("VERIF_REPO_BASE", "/repo") + "/", copy + "/"], check=True)
         p = os.path.join(copy, file)
         src = open(p).read()
-        if src.count(old) < occ + 1:
-            res["error"] = "mutation site not found in %s" % file
-            return res
-        pos = -1
-        for _ in range(occ + 1):
-            pos = src.index(old, pos + 1)
-        open(p, "w").write(src[:pos] + new + src[pos + len(old):])
+        if occ == "all":
+            if old not in src:
+                res["error"] = "mutation site not found in %s" % file
+                return res
+            open(p, "w").write(src.replace(old, new))
+        else:
+            if src.count(old) < occ + 1:
+                res["error"] = "mutation site not found in %s" % file
+                return res
+            pos = -1
+            for _ in range(occ + 1):
+                pos = src.index(old, pos + 1)
+            open(p, "w").write(src[:pos] + new + src[pos + len(old):])
         env = dict(os.environ)
         env.update({"GOFLAGS": "-mod=mod", "GOPROXY": "off", "GOSUMDB": "off", "GOTOOLCHAIN": "local", "VERIF_REPO": copy,
-                    "PYTHONPATH": VERIF, "VERIF_TIER": tier})
+                    "PYTHONPATH": VERIF, "VERIF_TIER": tier, "VERIF_SKIP_TV": "1"})
         b = subprocess.run(["go", "test", "-c", "-vet=off", "-o", os.path.join(work, "m.test"), "."], cwd=copy, env=env,
                            stdout=subprocess.PIPE, stderr=subprocess.STDOUT, text=True)
         res["builds"] = b.returncode == 0
@@ -116,7 +129,7 @@ def main(argv):
         tier = argv[i + 1]
         argv = argv[:i] + argv[i + 2:]
     ids = [a for a in argv if a in MUT] or sorted(MUT)
-    with ThreadPoolExecutor(max_workers=min(len(ids), 10)) as tp:
+    with ThreadPoolExecutor(max_workers=min(len(ids), 12)) as tp:
         results = list(tp.map(lambda m: run_mutation(m, tier), ids))
     ok = True
     print("%-5s %-7s %-34s %-s" % ("mut", "builds", "killed by", "other lemmas run"))
